@@ -13,9 +13,11 @@ Decoder == {"hdr", "packetconn", "session", "floodsub-packet", "solicit-exchange
             "signedmsg", "envelope", "peerid", "pubkey", "privkey", "pem", "pubmessage"}
 Streaming == {"hdr", "packetconn", "session", "solicit-exchange"}
 Class == {"trunc", "lenZero", "lenTiny", "lenOver", "lenMax32", "varintOverlong", "wireType", "innerHuge", "nestedGarbage", "validThenGarbage",
-          "zeros", "ones", "random", "bitflip"}
+          "zeros", "ones", "random", "bitflip", "keyLen"}
 Variant == 0..11     \* offset / position / seed selector inside the class
-Applicable(d, c) == (c \in {"lenZero", "lenTiny", "lenOver", "lenMax32"} => d \in Streaming)
+\* keyLen: a structurally valid frame whose embedded Ed25519 public key has the wrong length (0, 1, 31, 33, 48, 64 bytes)
+KeyCarrying == {"signedmsg", "pubmessage", "peerid", "pubkey"}
+Applicable(d, c) == (c \in {"lenZero", "lenTiny", "lenOver", "lenMax32"} => d \in Streaming) /\ (c = "keyLen" => d \in KeyCarrying)
 Cases == {x \in [dec : Decoder, cls : Class, v : Variant] : Applicable(x.dec, x.cls)}
 \* allocation bound per message in bytes (configured maximum of the decoder + slack for bookkeeping)
 Limit(d) == CASE d = "hdr" -> 100000 [] d = "packetconn" -> 65536 [] d = "session" -> 65536 [] d = "solicit-exchange" -> 16384 [] OTHER -> 0
